@@ -61,6 +61,14 @@ def mentioned_names() -> set[str]:
         for n in ast.walk(ast.parse(open(p, encoding="utf-8").read())):
             if isinstance(n, ast.Constant) and isinstance(n.value, str):
                 names |= set(re.findall(r"[A-Za-z_][A-Za-z0-9_]*", n.value))
+    # functions a recorded known finding is keyed by: a rename must not turn the known finding into a "new" one
+    try:
+        kf = json.load(open(os.path.join(VERIF, "known_findings.json")))
+        for e in kf.get("findings", []):
+            if e.get("status") == "known":
+                names |= set(re.findall(r"[A-Za-z_][A-Za-z0-9_]*", json.dumps(e.get("key", ""))))
+    except (OSError, ValueError):
+        pass
     return names
 
 
